@@ -33,6 +33,7 @@
 #include <cstdlib>
 #include <cmath>
 #include <vector>
+#include <limits>
 
 #include "numpypp/array.hpp"
 #include "numpypp/dispatch.hpp"
@@ -332,6 +333,9 @@ void zoom_shift(const numpy::aligned_array<FT> array, PyArrayObject* zoom_ar,
             FT cc = kk;
             if (shifts) cc += shifts[r];
             if (zooms) cc *= zooms[r];
+            // (kk+shift)*zoom can overshoot the last sample by a rounding error: that is not outside of the array
+            const FT last = FT(array.dim(r) - 1);
+            if (cc > last && (cc - last) <= 16 * std::numeric_limits<FT>::epsilon() * (last + 1)) cc = last;
             cc = map_coordinate(cc, array.dim(r), mode);
             if (cc > -1.0) {
                 const int start = int(floor(cc + 0.5*(1 - (order & 1))) - order / 2);
